@@ -110,6 +110,10 @@ impl Header {
     }
 }
 
+/// Upper bound for allocations made ahead of parsing the data they are for, so that the memory used
+/// depends on the size of the input and not on the counts it merely declares.
+const MAX_PREALLOC: usize = 1 << 16;
+
 /// Parser for the ASCII version of the AIGER file format.
 pub struct Parser<'a, L> {
     reader: LineReader<'a>,
@@ -166,7 +170,9 @@ where
         Ok(Self {
             reader,
             max_lit: header.max_var_index * 2 + 1,
-            code: (header.input_count + 1) * 2,
+            // Cannot overflow for any input count that leaves room for a latch or and gate, which
+            // are the only users of this value
+            code: header.input_count.wrapping_add(1).wrapping_mul(2),
             header,
             _lit_builder: std::marker::PhantomData,
         })
@@ -190,20 +196,15 @@ where
             ..OrderedAig::default()
         };
 
-        aig.latches.reserve(self.header.latch_count);
-        aig.outputs.reserve(self.header.output_count);
+        aig.latches.reserve(self.header.latch_count.min(MAX_PREALLOC));
+        aig.outputs.reserve(self.header.output_count.min(MAX_PREALLOC));
         aig.bad_state_properties
-            .reserve(self.header.bad_state_property_count);
+            .reserve(self.header.bad_state_property_count.min(MAX_PREALLOC));
         aig.invariant_constraints
-            .reserve(self.header.invariant_constraint_count);
-        aig.justice_properties = (0..self.header.justice_property_count)
-            .map(|_| vec![])
-            .collect();
+            .reserve(self.header.invariant_constraint_count.min(MAX_PREALLOC));
         aig.fairness_constraints
-            .reserve(self.header.fairness_constraint_count);
-        aig.and_gates.reserve(self.header.and_gate_count);
-
-        let justice_property_count = self.header.justice_property_count;
+            .reserve(self.header.fairness_constraint_count.min(MAX_PREALLOC));
+        aig.and_gates.reserve(self.header.and_gate_count.min(MAX_PREALLOC));
 
         let mut aag_reader = self.latches()?;
         while let Some(latch) = aag_reader.next_latch()? {
@@ -225,12 +226,14 @@ where
             aig.invariant_constraints.push(invariant_constraint);
         }
 
-        let mut justice_property_sizes = Vec::with_capacity(justice_property_count);
+        let mut justice_property_sizes = vec![];
 
         let mut aag_reader = aag_reader.justice_properties()?;
         while let Some(justice_property_size) = aag_reader.next_justice_property_size()? {
             justice_property_sizes.push(justice_property_size);
         }
+
+        aig.justice_properties = justice_property_sizes.iter().map(|_| vec![]).collect();
 
         let mut justice_property = 0;
 
